@@ -19,7 +19,7 @@ type AutoEscapeExtension struct {
 
 // Init registers the escape functionality with the given Env.
 func (e *AutoEscapeExtension) Init(env *stick.Env) error {
-	env.Visitors = append(env.Visitors, &autoEscapeVisitor{})
+	env.Visitors = append(env.Visitors, &autoEscapeVisitor{ext: e})
 	env.Filters["escape"] = func(ctx stick.Context, val stick.Value, args ...stick.Value) stick.Value {
 		ct := "html"
 		if len(args) > 0 {
@@ -60,6 +60,7 @@ func NewAutoEscapeExtension() *AutoEscapeExtension {
 // AutoEscapeVisitor can be used to automatically apply the "escape" filter
 // to any PrintNode.
 type autoEscapeVisitor struct {
+	ext   *AutoEscapeExtension
 	stack []string
 }
 
@@ -110,10 +111,19 @@ func (v *autoEscapeVisitor) Leave(n parse.Node) {
 
 func (v *autoEscapeVisitor) guessTypeFromName(name string) string {
 	name = strings.TrimSuffix(name, ".twig")
-	p := strings.LastIndex(name, ".")
-	if p < 0 {
-		// Default to html
-		return "html"
+	if p := strings.LastIndex(name, "."); p >= 0 {
+		ext := name[p+1:]
+		if ext == "txt" {
+			// plain text is not escaped
+			return ext
+		}
+		if v.ext != nil {
+			if _, ok := v.ext.Escapers[ext]; ok {
+				return ext
+			}
+		}
 	}
-	return name[p+1:]
+	// Default to html: no extension, or one without an escaper (an inline
+	// template's "name" is its source and may well contain a dot)
+	return "html"
 }
